@@ -283,6 +283,7 @@ def _check_C11(o, tier):
     # under the race detector: tag moves on one digest against reads of the tag and the listing (what a handler does with
     # the index between two store actions is below the granularity of the model; C13 owns it, this is a cheap tripwire)
     stress(o, True, "mem", 1500 if thorough else 250, "stress-tagmoves-race", profile="tagrace")
+    stress(o, True, "mem", 1500 if thorough else 250, "stress-childrecords-race", profile="childrace")
     if thorough:
         stress(o, True, "mem", 1500, "stress-mem-race")
         stress(o, True, "dir", 150, "stress-dir-race")
